@@ -191,6 +191,11 @@ def lookupExtra (extra vars : List (Name × Str)) (x : Name) : Option Str :=
 def loopRender (lv : Name) (vars : List (Name × Str)) (items : List Str) (refs : List Name) : List (List (Option Str)) :=
   items.map (fun it => refs.map (lookupExtra [(lv, it)] vars))
 
+/-- `for: {var: M}` over a MAP variable: Go hands the entries out in an arbitrary order `es` (a permutation of the
+map); every iteration binds `KEY` and `ITEM` to the two halves of ONE entry.  The documented variation is the order
+only: the iterations are the entries `es`, pair by pair. -/
+def mapLoop (es : List (Str × Str)) : List (Str × Str) := es
+
 /-! ### `env:` entries given by `sh:`
 
 Global (`Taskfile.env`) entries are first evaluated by `Compiler.getVariables`, in order, each
